@@ -42,7 +42,8 @@ def address_write(chk: Check, repo: Repo) -> None:
     exc = ExcTable(repo)
     target = Obj("IndividualAddress", "target")
     other = Obj("IndividualAddress", "other")
-    for found, pgm, answers in product((False, True), ("several", "none", "one-equal", "one-different"), (False, True)):
+    own_addr = Obj("IndividualAddress", "own")
+    for own, found, pgm, answers in product((False, True), (False, True), ("several", "none", "one-equal", "one-different"), (False, True)):
         box = {}
         def cm(c, env):
             n = call_name(c)
@@ -75,8 +76,13 @@ def address_write(chk: Check, repo: Repo) -> None:
             return None
         am = AbsMachine(cfg, exc, cm)
         box["am"] = am
-        paths = Explorer(cfg, repo, am.step).run(cfg.entry, [], {})
+        # the interface's own address: nobody can answer a probe of it, so it is refused before anything is sent
+        paths = Explorer(cfg, repo, am.step).run(cfg.entry, [], {"xknx.current_address": target if own else own_addr})
         got = {(tuple(t for t in p.env.get("trace", ()) if not t.startswith("raise:")), p.end_kind if p.end_kind == "exit" else f"raise {p.env.get('#raised')}") for p in paths}
+        if own:
+            want = {((), "raise ManagementConnectionError")}
+            chk.ob("address-write-cell", fi.site(), got == want, f"target is the interface's own address, address present={found} programming-mode devices={pgm} answers={answers}: {sorted(map(str, got))}; reference: refused before anything is sent {sorted(map(str, want))}", key=f"write|own|{found}|{pgm}|{answers}" + ("" if got == want else f"|{sorted(map(str, got))}"))
+            continue
         R = "READ_PROGRAMMING_MODE(raise_if_multiple=True)"
         W = f"BROADCAST(IndividualAddressWrite address={target!r})"
         C = f"CONNECT({target!r})"
@@ -150,6 +156,37 @@ def address_check(chk: Check, repo: Repo) -> None:
         occupied = connect == "refused" or probe in ("answers", "refused") or teardown == "refused"
         want = {occupied}
         chk.ob("address-check-cell", fi.site(), got == want, f"connect={connect} probe={probe} teardown={teardown}: returns {sorted(map(str, got))}; reference occupied={occupied} (a refusal at any stage means the address is in use)", key=f"check|{connect}|{probe}|{teardown}" + ("" if got == want else f"|{sorted(map(str, got))}"))
+
+
+def address_probe(chk: Check, repo: Repo) -> None:
+    """nm_individual_address_check_conn: the address is free only if the probe timed out AND nothing at all was heard
+    from the peer on that connection - an acknowledgement, or an answer whose own acknowledgements were lost, proves a
+    device (P2PConnection.peer_seen is set by every telegram the connection processes)."""
+    fi = repo.func(f"{NET}.nm_individual_address_check", "nm_individual_address_check_conn")
+    chk.unit(fi)
+    cfg = CFG(fi.node)
+    exc = ExcTable(repo)
+    p0 = fi.node.args.args[0].arg
+    for probe, heard in product(("answers", "timeout", "refused"), (False, True)):
+        def cm(c, env):
+            n = call_name(c)
+            if n == f"{p0}.request":
+                return {"answers": [Outcome("REQUEST", Obj("Telegram", "t"))], "timeout": [Outcome("REQUEST:timeout", Raise("ManagementConnectionTimeout"))], "refused": [Outcome("REQUEST:refused", Raise("ManagementConnectionRefused"))]}[probe]
+            if n.startswith("logger.") or n.startswith("apci."):
+                return [Outcome(None, Obj("x", n))]
+            return None
+        am = AbsMachine(cfg, exc, cm)
+        paths = Explorer(cfg, repo, am.step).run(cfg.entry, [], {f"{p0}.peer_seen": heard, f"{p0}.address": Obj("IndividualAddress", "ia")})
+        got = {(p.env.get("#ret") if p.end_kind == "exit" else f"raise {p.env.get('#raised')}") for p in paths}
+        want = {probe != "timeout" or heard}
+        chk.ob("address-probe-cell", fi.site(), got == want, f"descriptor read {probe}, peer heard on the connection={heard}: returns {sorted(map(str, got))}; reference occupied={sorted(want)}" + ("" if got == want else " - a device that was heard (acknowledged, or answered without its acknowledgements arriving) counts as absent and its address is written to another device"), key=f"probe|{probe}|{heard}" + ("" if got == want else f"|{sorted(map(str, got))}"))
+    # the flag is raised by every telegram the connection processes, before any early return
+    pc = repo.func("xknx.management.management", "P2PConnection.process")
+    chk.unit(pc)
+    pcfg = CFG(pc.node)
+    marks = [n.id for n in pcfg.nodes if n.kind == "stmt" and isinstance(n.ast, ast.Assign) and ast.unparse(n.ast.targets[0]) == "self.peer_seen" and isinstance(n.ast.value, ast.Constant) and n.ast.value.value is True]
+    ok = bool(marks) and pcfg.all_paths_hit(pcfg.entry, marks, [pcfg.exit, pcfg.raise_exit], include_start=False)
+    chk.ob("peer-heard-is-recorded", pc.site(), ok, "P2PConnection.process sets peer_seen on every path (acknowledgements, data, disconnects)" if ok else "P2PConnection.process does not record on every path that the peer was heard", key="probe|mark")
 
 
 def _is_bc_receive(c: ast.Call, env, am) -> bool:
@@ -342,6 +379,7 @@ def run(chk: Check, repo: Repo) -> None:
     teardown_contract(chk, repo)
     address_write(chk, repo)
     address_check(chk, repo)
+    address_probe(chk, repo)
     address_read(chk, repo)
     serial(chk, repo)
     authorize(chk, repo)
